@@ -80,6 +80,23 @@ def run(facts, res):
             res.violation("V2", "resolve_as|reasserted-object-not-the-view-at-chosen",
                           "resolve_as re-asserts %s, which is not read_object_at_revision(uuid, tree, Revision::from(winner))" % fmt(obj, 6), s.loc())
 
+    # V2b: the re-assertion is not skippable: every path from the view reconstruction to the sealing of the other
+    # leaves passes update_object or delete_object (for arrays in conflict the visible value is the *merge* of all leaves;
+    # it exists as a revision only once it has been re-asserted, also when the chosen leaf already is the winner)
+    cfg = cfg_of(b)
+    recon = [s for s in cg.sites[b.path] if s.callee is not None and s.callee.name == "read_object_at_revision"]
+    seals = [s for s in cg.sites[b.path] if s.callee is not None and s.callee.name == "add" and "RevisionTree" in s.callee.path]
+    reassert = {s.block for s in cg.sites[b.path] if s.callee is not None and s.callee.name in ("update_object", "delete_object")}
+    from ..conds import all_edge_lits
+    plain_only = {e for e, l in all_edge_lits(b, facts) if l.kind == "call" and callee_name(l.term) == "is_array_descriptor" and l.truth is False}
+    if recon and seals:
+        skip = any(cfg.reaches(r.block, s.block, avoid=reassert | plain_only) for r in recon for s in seals)
+        res.instance("V2", "resolve_as: no path from the reconstruction to the sealing loop skips update_object / delete_object: %s" % (not skip), recon[0].loc())
+        if skip:
+            res.violation("V2", "resolve_as|reassertion-skippable",
+                          "resolve_as can seal the other leaves without re-asserting the chosen state (a path skips update_object / delete_object): for a flattened "
+                          "array in conflict the merged order is then never stored and the elements of the sealed leaves disappear", recon[0].loc())
+
     # ------------------------------------------------------------------ V3
     adds = [s for s in cg.sites[b.path] if s.callee is not None and s.callee.name == "add" and "RevisionTree" in s.callee.path]
     res.floor("V3", "sealing add() in resolve_as", len(adds), 1)
